@@ -519,3 +519,194 @@ func c06retryOwnsKeys(c *Ctx) {
 	}
 	c.R.Min(rule, 1, "cacheNode.asyncRetryDelCache")
 }
+
+// c06queriesInsideTake (C06.R15, round 8): the load suppression is only as good as its callers. Every method of
+// sqlc.CachedConn that is handed a query function (a parameter whose named type is one of the package's …Query…Fn
+// types) invokes it only from inside a function literal that is itself handed to a method of the connection's cache
+// (Take…): never in the method body, never in a literal used otherwise. A "retry outside the flight" — re-running the
+// query when the shared load was cancelled by its owner, say — lets every sharer hit the database at once for one key.
+func c06queriesInsideTake(c *Ctx) {
+	rule := "C06.R15"
+	pkg := "core/stores/sqlc"
+	pk := c.P.Pkg(pkg)
+	if pk == nil {
+		c.R.Undecided(rule, pkg, "anchor resolves", "package not loaded")
+		return
+	}
+	tn, _ := pk.Types.Scope().Lookup("CachedConn").(*types.TypeName)
+	if tn == nil {
+		c.R.Undecided(rule, pkg+".CachedConn", "anchor resolves", "type missing")
+		return
+	}
+	isQueryParam := func(p *ssa.Parameter) bool {
+		n, ok := p.Type().(*types.Named)
+		if !ok {
+			return false
+		}
+		_, isFn := n.Underlying().(*types.Signature)
+		return isFn && strings.Contains(n.Obj().Name(), "Query")
+	}
+	// a literal is "handed to the cache" when its only use is as an argument of an invoke on a value loaded from the field cache
+	var handed func(v ssa.Value, mc *ssa.MakeClosure, d int) bool
+	handedToCache := func(mc *ssa.MakeClosure) bool { return handed(mc, mc, 0) }
+	handed = func(v ssa.Value, mc *ssa.MakeClosure, d int) bool {
+		refs := v.Referrers()
+		if refs == nil || len(*refs) == 0 || d > 3 {
+			return false
+		}
+		for _, r := range *refs {
+			call, ok := r.(ssa.CallInstruction)
+			if !ok {
+				if _, dbg := r.(*ssa.DebugRef); dbg {
+					continue
+				}
+				// the literal converted to the named function type of the parameter it is passed for
+				if ct, isCT := r.(*ssa.ChangeType); isCT {
+					if !handed(ct, mc, d+1) {
+						return false
+					}
+					continue
+				}
+				return false
+			}
+			cc := call.Common()
+			if !cc.IsInvoke() {
+				// forwarded as the query function of a sibling method: the rule applies there
+				if cal := cc.StaticCallee(); cal != nil && cal.Signature.Recv() != nil && strings.HasSuffix(typeString(cal.Signature.Recv().Type()), "sqlc.CachedConn") {
+					fwd := false
+					for ai, a := range cc.Args {
+						if a == v && ai < len(cal.Params) && isQueryParam(cal.Params[ai]) {
+							fwd = true
+						}
+					}
+					if fwd {
+						continue
+					}
+				}
+				return false
+			}
+			ok = false
+			switch x := cc.Value.(type) {
+			case *ssa.UnOp:
+				if fa, isFA := x.X.(*ssa.FieldAddr); isFA {
+					ok = fieldNameAt(fa.X.Type(), fa.Field) == "cache"
+				}
+			case *ssa.Field:
+				ok = fieldNameAt(x.X.Type(), x.Field) == "cache"
+			}
+			if !ok {
+				return false
+			}
+		}
+		return true
+	}
+	n := 0
+	ms := types.NewMethodSet(tn.Type())
+	for i := 0; i < ms.Len(); i++ {
+		fo, _ := ms.At(i).Obj().(*types.Func)
+		f := c.P.FuncOf(fo)
+		if f == nil || f.Blocks == nil {
+			continue
+		}
+		var qps []*ssa.Parameter
+		for _, p := range f.Params {
+			if isQueryParam(p) {
+				qps = append(qps, p)
+			}
+		}
+		if len(qps) == 0 {
+			continue
+		}
+		n++
+		var bad []string
+		calls := 0
+		var visit func(fn *ssa.Function, alias map[ssa.Value]bool, inCacheLiteral bool)
+		visit = func(fn *ssa.Function, alias map[ssa.Value]bool, inCacheLiteral bool) {
+			for _, b := range fn.Blocks {
+				for _, ins := range b.Instrs {
+					switch x := ins.(type) {
+					case ssa.CallInstruction:
+						if alias[x.Common().Value] && !x.Common().IsInvoke() {
+							calls++
+							if !inCacheLiteral {
+								bad = append(bad, fmt.Sprintf("%s: the query function is invoked outside a literal handed to the cache (in %s)", c.P.Pos(x.Pos()), funcDisplay(fn)))
+							}
+						}
+					}
+					if mc, ok := ins.(*ssa.MakeClosure); ok {
+						lit, _ := mc.Fn.(*ssa.Function)
+						if lit == nil {
+							continue
+						}
+						al := map[ssa.Value]bool{}
+						for bi, bnd := range mc.Bindings {
+							if bi >= len(lit.FreeVars) {
+								break
+							}
+							// a captured parameter (by value or through its cell)
+							if alias[bnd] {
+								al[lit.FreeVars[bi]] = true
+							}
+							if a, isAlloc := bnd.(*ssa.Alloc); isAlloc {
+								for _, r := range *a.Referrers() {
+									if st, isSt := r.(*ssa.Store); isSt && alias[st.Val] {
+										al[lit.FreeVars[bi]] = true
+									}
+								}
+							}
+						}
+						// loads of captured cells inside the literal
+						for _, lb := range lit.Blocks {
+							for _, li := range lb.Instrs {
+								if u, isU := li.(*ssa.UnOp); isU && al[u.X] {
+									al[u] = true
+								}
+							}
+						}
+						visit(lit, al, inCacheLiteral || handedToCache(mc))
+					}
+				}
+			}
+		}
+		al := map[ssa.Value]bool{}
+		for _, p := range qps {
+			al[p] = true
+			// spilled to a cell when captured
+			for _, r := range *p.Referrers() {
+				if st, ok := r.(*ssa.Store); ok {
+					if a, ok := st.Addr.(*ssa.Alloc); ok {
+						for _, r2 := range *a.Referrers() {
+							if u, ok := r2.(*ssa.UnOp); ok {
+								al[u] = true
+							}
+						}
+					}
+				}
+			}
+		}
+		visit(f, al, false)
+		name := pkg + ".(CachedConn)." + fo.Name() + "#query-inside-take"
+		text := "a query function handed to the method is invoked only from inside a function literal handed to the connection's cache (the single flight and the cache decide whether it runs)"
+		sort.Strings(bad)
+		switch {
+		case len(bad) > 0:
+			c.R.Fail(rule, name, text, c.P.Pos(f.Pos()), strings.Join(bad, "; "), bad)
+		case calls == 0:
+			// forwarded to a sibling method: then that method is the instance
+			c.R.Hold(rule, name, text+" (forwards its query function to a sibling method)", 1)
+		default:
+			c.R.Hold(rule, name, text, calls)
+		}
+	}
+	c.R.Min(rule, 4, "QueryRow, QueryRowCtx, QueryRowIndex, QueryRowIndexCtx")
+}
+
+func fieldNameAt(t types.Type, idx int) string {
+	if p, ok := t.Underlying().(*types.Pointer); ok {
+		t = p.Elem()
+	}
+	if st, ok := t.Underlying().(*types.Struct); ok && idx < st.NumFields() {
+		return st.Field(idx).Name()
+	}
+	return ""
+}
